@@ -9,7 +9,8 @@ import (
 )
 
 // Issues returns a channel with gitlab project issues, ascending order.
-func Issues(ctx context.Context, client *gitlab.Client, pid string, since time.Time) <-chan *gitlab.Issue {
+// onError is called if the listing fails (the channel is then closed early).
+func Issues(ctx context.Context, client *gitlab.Client, pid string, since time.Time, onError func(err error)) <-chan *gitlab.Issue {
 	out := make(chan *gitlab.Issue)
 
 	go func() {
@@ -24,6 +25,8 @@ func Issues(ctx context.Context, client *gitlab.Client, pid string, since time.T
 		for {
 			issues, resp, err := client.Issues.ListProjectIssues(pid, &opts, gitlab.WithContext(ctx))
 			if err != nil {
+				// the caller needs to know that the listing is incomplete
+				onError(err)
 				return
 			}
 
